@@ -2,6 +2,7 @@
 from ..build import Unit
 from ..engine import Contract, OBJ, ASSUME
 
+SERVES = {"C15"}
 TITLE = "Set choices are independent bits for every encoding width"
 
 
